@@ -10,6 +10,9 @@ pub mod c04_create;
 pub mod c05;
 pub mod c07;
 pub mod c08;
+pub mod c09;
+pub mod c10;
+pub mod c11;
 pub mod c15;
 pub mod c16;
 pub mod c18;
@@ -24,6 +27,9 @@ pub fn run(id: &str, tier: Tier) -> i32 {
         "C05" => c05::run(tier),
         "C07" => c07::run(tier),
         "C08" => c08::run(tier),
+        "C09" => c09::run(tier),
+        "C10" => c10::run(tier),
+        "C11" => c11::run(tier),
         "C15" => c15::run(tier),
         "C16" => c16::run(tier),
         "C18" => c18::run(tier),
@@ -46,6 +52,9 @@ pub fn replay(id: &str, j: &J) -> i32 {
         "C05" => c05::replay(&case),
         "C07" => c07::replay(&case),
         "C08" => c08::replay(&case),
+        "C09" => c09::replay(&case),
+        "C10" => c10::replay(&case),
+        "C11" => c11::replay(&case),
         "C15" => c15::replay(&case),
         "C16" => c16::replay(&case),
         "C18" => c18::replay(&case),
